@@ -3,11 +3,10 @@
    configuration (any bonus values, delimiter set, ignore_case, normalize, prefer_prefix), every
    haystack and every already-normalised needle (any length: the u16 / matrix limits only select the
    branch), every representation pair except the known finding K1 (haystack bytes, needle code points).
-   PARTIAL for the optimal entry point: C01_fuzzy_reject shows it rejects exactly the non-subsequences;
-   that its accepting runs end in Match rather than in a panic is C10's claim (validated by the
-   correspondence, the DP index arithmetic is not yet proved panic-free). *)
+   Both entry points DECIDE the relation (C01_greedy_decision, C01_fuzzy_decision: Match iff subsequence,
+   never a panic - the latter uses the DP's panic-freedom, Proofs/DPFacts.v). *)
 From Coq Require Import NArith List Bool.
-From NV Require Import Model.Matcher Spec.Matching Spec.Statements Proofs.C01Facts.
+From NV Require Import Model.Matcher Spec.Matching Spec.Statements Proofs.C01Facts Proofs.DPFacts.
 Import ListNotations.
 Local Open Scope N_scope.
 
@@ -22,6 +21,25 @@ Proof. exact C01Facts.C01_fuzzy_reject. Qed.
 
 Theorem C01_repr_indep : C01_repr_indep_stmt.
 Proof. exact C01Facts.C01_repr_indep. Qed.
+
+(* with the DP proved panic-free (Proofs/DPFacts.v) the optimal entry point DECIDES the relation *)
+Theorem C01_fuzzy_decision :
+  forall cfg hs ns, wf_str hs -> wf_str ns -> needle_ok cfg (rp ns) (cs ns) = true -> ~ known_K1 hs ns ->
+    match run cfg Fuzzy hs ns with
+    | Match _ _ => normalised_subseq cfg hs ns = true
+    | NoMatch => normalised_subseq cfg hs ns = false
+    | Panicked _ => False
+    end.
+Proof.
+  intros cfg hs ns Hh Hn Hok HK.
+  pose proof (C01Facts.C01_fuzzy_reject cfg hs ns Hh Hn Hok HK) as F.
+  pose proof (DPFacts.DP_no_panic cfg hs ns [] ) as P.
+  destruct (run cfg Fuzzy hs ns) as [|sc idx|site] eqn:E.
+  - apply (proj1 F). reflexivity.
+  - destruct (normalised_subseq cfg hs ns) eqn:S; [reflexivity|].
+    pose proof (proj2 F eq_refl) as C. discriminate C.
+  - exact (P site Hok E).
+Qed.
 
 (* the optimal and the greedy entry points reject the same inputs *)
 Theorem C01_entry_points_agree :
@@ -58,6 +76,7 @@ Proof. vm_compute. repeat split; try reflexivity. intros [H _]; discriminate. Qe
 Print Assumptions C01_subseq_spec.
 Print Assumptions C01_greedy_decision.
 Print Assumptions C01_fuzzy_reject.
+Print Assumptions C01_fuzzy_decision.
 Print Assumptions C01_repr_indep.
 Print Assumptions C01_entry_points_agree.
 Print Assumptions C01_K1_refuted.
